@@ -28,6 +28,7 @@ class Gef:
 
     def name(self, s):
         s = fam_erase(s)
+        s = getattr(self.prog, '_name_alias', {}).get(s, s)
         return swap_lr(s) if self.mirror else s
 
     def field(self, f):
